@@ -7,13 +7,14 @@ the theorems' observable consequences (GetRevision samples never decrease, Deal 
 per goroutine, after its Commit(r) a goroutine reads >= r and deals > r, after all Commits committed >= max r and the
 deal cursor >= max r; every dealt revision within the window of a later committed sample), and TestTsoWindow (with nobody
 committing exactly MaxInFlight-1 revisions are dealt and every further Deal is refused; a Commit(k) frees exactly k; a
-lagging committer). A failed assertion is a concrete failing input (the test's log is the replay)."""
+lagging committer), and TestTsoWindowEdge (a FULL window freed a few revisions at a time while a dozen dealers keep asking: no revision
+dealt twice, none outside the window). A failed assertion is a concrete failing input (the test's log is the replay)."""
 import re
 import time
 
 from . import core
 
-CMD = ["go", "test", "-vet=off", "-v", "-tags", "verif", "-count=1", "-timeout", "5m", "-run", "^TestTso(Cas|Window)$", "./racetest/"]
+CMD = ["go", "test", "-vet=off", "-v", "-tags", "verif", "-count=1", "-timeout", "5m", "-run", "^TestTso(Cas|Window|WindowEdge)$", "./racetest/"]
 
 
 def run_dynamic(rep, prop, seed):
@@ -21,8 +22,8 @@ def run_dynamic(rep, prop, seed):
     t0 = time.time()
     rc, out = core.sh(CMD, cwd=core.HARNESS, env=dict(core.GOENV, KB_RACE_SEED=str(seed)), timeout=900)
     logs = re.findall(r"tso_race_test\.go:\d+: (.*)", out)
-    failed = re.search(r"^--- FAIL: TestTso(Cas|Window)\b", out, re.M) is not None
-    passed = all(re.search(r"^--- PASS: %s\b" % t, out, re.M) is not None for t in ("TestTsoCas", "TestTsoWindow"))
+    failed = re.search(r"^--- FAIL: TestTso(Cas|Window|WindowEdge)\b", out, re.M) is not None
+    passed = all(re.search(r"^--- PASS: %s\b" % t, out, re.M) is not None for t in ("TestTsoCas", "TestTsoWindow", "TestTsoWindowEdge"))
     rep.cov["tso_cas_dynamic"] = {"cmd": "cd harness && " + " ".join(CMD), "wall_s": round(time.time() - t0, 1),
                                   "result": "fail" if failed else ("pass" if passed else "did-not-run"), "log": logs[:12]}
     c = core.Case("racetest", ["# " + " ".join(CMD), "workload TestTsoCas+TestTsoWindow seed=%d" % seed] + ["log " + l for l in logs[:12]])
